@@ -220,7 +220,6 @@ package peering
 //@   modifies nothing
 //@   ensures listener-or-error [C20]: (result1 == nil ==> nonnil(result0)) && (result1 != nil ==> result0 == nil)
 //@ func Peering.GetListener
-//@   option trusted
 //@   modifies nothing
 //@ func Peering.checkListen
 //@   requires w != nil && listening != nil
